@@ -247,6 +247,19 @@ func genBigFloat(r *hx.RNG, tier string) (*big.Float, string) {
 		}
 		return x, "finite"
 	}
+	if r.Chance(6) {
+		// values that look like float64s: 53 (52, 54, 24) significant bits at the ends of the double's exponent range,
+		// where a double has fewer bits than that (subnormals) or does not exist
+		bits := []uint{53, 53, 52, 54, 24, 64}[r.Intn(6)]
+		m := new(big.Int).SetUint64(r.U64()>>(64-bits) | 1<<(bits-1) | 1)
+		x.SetPrec(prec + 64).SetInt(m)
+		e := []int{-1022, -1021, -1023, -1024, -1074, -1075, -1073, 1024, 1023, 1025, -126, -149, 128}[r.Intn(13)]
+		x.SetMantExp(x, e-int(bits)) // MantExp(x) == e
+		if r.Bool() {
+			x.Neg(x)
+		}
+		return x, "finite"
+	}
 	m := new(big.Int).SetUint64(r.U64())
 	if r.Chance(25) {
 		// far fewer significant bits than the precision provides (3 held at 128 bits): Prec() and MinPrec() differ widely
@@ -605,8 +618,15 @@ func c15Float(c *hx.Ctx, r *hx.RNG) {
 			v, cls = r.Finite(r.Range(1, 60), le), "beyond-binary-range"
 		}
 	}
+	long := cls == "finite" && r.Intn(80) == 0
+	if long { // thousands of digits into (or defining) a target of thousands of bits
+		v = r.Finite(r.Range(2000, 8000), int64(r.Range(-3000, 3000)))
+	}
 	x := hx.MkR(r, v, digitsOf(v)+uint(r.Intn(3)), r.Mode()) // (not a huge precision: a destination without one takes ceil(prec*log2(10)) bits)
 	bp := uint(r.Range(1, 300))
+	if long {
+		bp = uint(r.Range(5000, 26000))
+	}
 	var z *big.Float
 	shape := r.Intn(3)
 	switch shape {
